@@ -326,12 +326,15 @@ def _next_instance(c):
     c.floor(R, f'{gc.fq} :: seq.get_next_point(point)', len(seqn), 1)
     for n in seqn:
         lp = n
+        comps = (ast.ListComp, ast.SetComp, ast.GeneratorExp)
         while id(lp) in c.idx.parent and not isinstance(
-                lp, (ast.For, ast.comprehension)):
+                lp, (ast.For,) + comps):
             lp = c.idx.parent[id(lp)]
+        iters = [norm(lp.iter)] if isinstance(lp, ast.For) else [
+            norm(g.iter) for g in lp.generators] if isinstance(
+            lp, comps) else []
         c.ob(R, c.key(n, gc) + ' over every recurrence of the task',
-             isinstance(lp, (ast.For, ast.comprehension))
-             and norm(lp.iter) == 'tdef.sequences', c.where(n, gc), '')
+             'tdef.sequences' in iters, c.where(n, gc), str(iters))
     # the auto-spawn of the next parentless instance uses it
     sp = c.func(TP, 'TaskPool.spawn_next_parentless')
     c.floor(R, f'{sp.fq} :: next_point_parentless', len(c.calls(
